@@ -46,7 +46,44 @@ func (E *Engine) heapArrSort(h map[string]string, comp, full string) string {
 	E.declare(name, "() "+full)
 	E.cur.compSort[comp] = full
 	h[comp] = name
+	if E.cur.compPtr[comp] && !E.cur.factSeen[name] {
+		E.cur.factSeen[name] = true
+		al := fAlloc0
+		if a, ok := h[allocKey]; ok {
+			al = a
+		}
+		E.cur.heapFacts = append(E.cur.heapFacts, axiom{Name: "closure", Body: E.closureFact(name, full, al), Trigger: []string{name}})
+	}
 	return name
+}
+
+const allocKey = "\x00alloc"
+
+// closureFact: every pointer stored in an allocated object is nil or allocated
+// (w.r.t. the allocation set `al` current when the array term came into being).
+func (E *Engine) closureFact(arr, full, al string) string {
+	r := E.freshName("r")
+	if strings.HasPrefix(full, "(Array Int (Array Int") {
+		i := E.freshName("i")
+		return fmt.Sprintf("(forall ((%s Int) (%s Int)) (! (=> (select %s %s) (or (= (select (select %s %s) %s) 0) (select %s (select (select %s %s) %s)))) :pattern ((select (select %s %s) %s))))",
+			r, i, al, r, arr, r, i, al, arr, r, i, arr, r, i)
+	}
+	return fmt.Sprintf("(forall ((%s Int)) (! (=> (select %s %s) (or (= (select %s %s) 0) (select %s (select %s %s)))) :pattern ((select %s %s))))",
+		r, al, r, arr, r, al, arr, r, arr, r)
+}
+
+func isPtrLeaf(l leafInfo) bool {
+	if strings.HasSuffix(l.Path, "#ref") {
+		return true
+	}
+	if l.T == nil {
+		return false
+	}
+	switch types.Unalias(l.T).Underlying().(type) {
+	case *types.Pointer, *types.Map, *types.Chan:
+		return true
+	}
+	return false
 }
 
 func (E *Engine) mapInfo(T types.Type) (root string, ksort string, vt types.Type) {
